@@ -9,6 +9,7 @@ from typing import Callable, Dict, Iterable, Iterator, List, Optional, Sequence,
 
 
 from .normal import normalise  # noqa: E402
+from .inline import inline_new_helpers  # noqa: E402
 
 
 class AnalysisError(Exception):
@@ -48,6 +49,7 @@ class ModuleInfo:
     funcs: Dict[str, FuncInfo] = field(default_factory=dict)
     classes: Dict[str, ast.ClassDef] = field(default_factory=dict)
     imports: Dict[str, str] = field(default_factory=dict)  # local name -> dotted origin
+    inlined: List[str] = field(default_factory=list)  # helpers extracted after the pinned tree that were inlined at load time
 
     def digest(self) -> str:
         return hashlib.sha256(self.src.encode()).hexdigest()[:16]
@@ -92,10 +94,14 @@ class Repo:
                         with open(path, "r", encoding="utf-8") as fh:
                             src = fh.read()
                     tree = normalise(ast.parse(src, filename=path))
+                    tree, inlined = inline_new_helpers(tree, rel)
+                    if inlined:
+                        tree = normalise(tree)
                 except (SyntaxError, UnicodeDecodeError, OSError) as exc:
                     self.parse_failures.append(f"{rel}: {exc}")
                     continue
                 mi = ModuleInfo(rel=rel, path=path, src=src, tree=tree)
+                mi.inlined = inlined
                 _index_module(mi)
                 self.modules[rel] = mi
                 if ck is not None:
